@@ -145,7 +145,7 @@ def gen_params(draw, max_hosts=12, max_services=5, small=True):
         p["process_scan_cost"] = draw(st.sampled_from([1, 0, 2, 0.75]))
     if draw(st.booleans()):
         p["base_host_value"] = draw(st.sampled_from([1, 0, 2, 0.5]))
-        p["host_discovery_value"] = draw(st.sampled_from([1, 0, 2, 0.5]))
+        p["host_discovery_value"] = draw(st.sampled_from([1, 0, 2, 0.5, 40, 250]))
     if draw(st.booleans()):
         p["step_limit"] = draw(st.integers(1, 200))
     if draw(st.integers(0, 3)) == 0:
